@@ -5,7 +5,7 @@ From Coq Require Import List.
 From Coq.Strings Require Import Byte.
 From GI Require Import Lib.Bytes Gen.TxtarConsts Txtar.Txtar Txtar.TxtarFacts Txtar.QuoteFacts
   Txtar.TxtarIndex Txtar.TxtarIndexFacts Txtar.TxtarHolds Txtar.TxtarHoldsFacts
-  Lib.Utf8 Lib.Utf8Facts Lib.Utf8EncodeFacts.
+  Lib.Utf8 Lib.Utf8Facts Lib.Utf8EncodeFacts Txtar.QuoteIndex Txtar.QuoteIndexFacts Lib.Utf8Go Lib.Utf8GoFacts.
 Import ListNotations.
 
 Theorem C14_needs_quote_exact : forall d,
@@ -79,3 +79,21 @@ Theorem C14_decode_rune_spec : forall d r w,
   (is_scalar r = true /\ w = rune_len r /\ exists rest, d = encode_rune r ++ rest).
 Proof. exact decode_rune_spec. Qed.
 Print Assumptions C14_decode_rune_spec.
+
+(* ---- Quote / Unquote at statement level (QuoteIndex.v): checked indexing, bytes.Count and
+   the allocate-and-copy loop of bytes.Replace, bytes.TrimPrefix; the literals regenerated ---- *)
+
+Theorem C14_quote_idx_eq : forall d, quote_idx d = Ok (quote d).
+Proof. exact quote_idx_eq. Qed.
+Print Assumptions C14_quote_idx_eq.
+
+Theorem C14_unquote_idx_eq : forall d, unquote_idx d = Ok (unquote d).
+Proof. exact unquote_idx_eq. Qed.
+Print Assumptions C14_unquote_idx_eq.
+
+(* utf8.DecodeRune as the standard library codes it -- the regenerated tables first / acceptRanges,
+   the mask-and-or trick, shifts and ors -- never indexes out of range and is decode_rune *)
+Theorem C14_decode_rune_tab_eq : forall p,
+  decode_rune_tab p = match decode_rune p with Some (r, w) => DOk r w | None => DEmpty end.
+Proof. exact decode_rune_tab_eq. Qed.
+Print Assumptions C14_decode_rune_tab_eq.
